@@ -27,7 +27,13 @@ var elemTypes = []spec.T{
 func drawPool(t *rapid.T, minN, maxN int, unk bool) (spec.T, []spec.V) {
 	ety := rapid.SampledFrom(elemTypes).Draw(t, "ety")
 	fam := rapid.IntRange(0, nFamilies-2).Draw(t, "family") // not the extreme-exponent family: formatting them dominates the run time
+	if rapid.IntRange(0, 3).Draw(t, "onebucket") == 0 {
+		fam = 1 // whole numbers with one 10-digit prefix: every member lands in one bucket
+	}
 	n := rapid.IntRange(minN, maxN).Draw(t, "npool")
+	if minN >= 3 {
+		n = maxN + minN - n // rapid favours small values; the stateful facets want large pools
+	}
 	o := valOpts{Null: true, Unknown: unk, Fam: fam, Max: 2}
 	var pool []spec.V
 	for len(pool) < n {
@@ -221,7 +227,7 @@ type History struct {
 
 const nRegs = 3
 
-var stepOps = []string{"add", "add", "add", "add", "add", "add", "add", "remove", "remove", "remove", "has", "copy", "copy",
+var stepOps = []string{"add", "add", "add", "add", "add", "add", "add", "remove", "remove-member", "remove-member", "has", "copy", "copy",
 	"union", "intersection", "subtract", "symdiff", "wrap", "wrap", "unwrap"}
 
 func genHistory(t *rapid.T) History {
@@ -234,6 +240,10 @@ func genHistory(t *rapid.T) History {
 		switch s.Op {
 		case "add", "remove", "has":
 			s.E = rapid.IntRange(0, len(pool)-1).Draw(t, "e")
+		case "remove-member":
+			// remove the E-th current member (in model order), named through
+			// the last pool member of its class (often another representative)
+			s.E = rapid.IntRange(0, 7).Draw(t, "k")
 		case "copy":
 			s.Dst = rapid.IntRange(0, nRegs-1).Draw(t, "dst")
 		case "union", "intersection", "subtract", "symdiff":
@@ -244,11 +254,14 @@ func genHistory(t *rapid.T) History {
 			s.Dst = rapid.IntRange(0, nRegs-1).Draw(t, "dst")
 		}
 		h.Steps = append(h.Steps, s)
-		if s.Op == "copy" && s.Dst != s.R && rapid.Bool().Draw(t, "diverge") {
-			// copy, then let the two sets diverge
-			h.Steps = append(h.Steps,
-				Step{Op: "add", R: s.Dst, E: rapid.IntRange(0, len(pool)-1).Draw(t, "e1")},
-				Step{Op: "add", R: s.R, E: rapid.IntRange(0, len(pool)-1).Draw(t, "e2")})
+		if s.Op == "copy" && s.Dst != s.R && rapid.IntRange(0, 3).Draw(t, "diverge") > 0 {
+			// copy, then let the two sets diverge: alternate insertions into both
+			// ("add-fresh" inserts the E-th pool member that the set does not hold yet)
+			for k := rapid.IntRange(1, 3).Draw(t, "burst"); k > 0; k-- {
+				h.Steps = append(h.Steps,
+					Step{Op: "add-fresh", R: s.Dst, E: rapid.IntRange(0, 2).Draw(t, "e1")},
+					Step{Op: "add-fresh", R: s.R, E: rapid.IntRange(0, 2).Draw(t, "e2")})
+			}
 		}
 	}
 	return h
@@ -286,6 +299,46 @@ func checkHistory(c *facet.Ctx, h History, independentCopy bool) (ret error) {
 		stepNo = i
 		if s.R < 0 || s.R >= nRegs || s.R2 < 0 || s.R2 >= nRegs || s.Dst < 0 || s.Dst >= nRegs || s.E < 0 {
 			continue
+		}
+		if s.Op == "add-fresh" {
+			s.Op = "add"
+			var fresh []int
+			for j := range pm.vals {
+				if !pm.unknownish(j) && !models[s.R].has(pm.keyOfIndex(j)) {
+					dup := false
+					for _, f := range fresh {
+						if pm.keyOfIndex(f) == pm.keyOfIndex(j) {
+							dup = true
+						}
+					}
+					if !dup {
+						fresh = append(fresh, j)
+					}
+				}
+			}
+			if len(fresh) == 0 {
+				continue
+			}
+			s.E = fresh[s.E%len(fresh)]
+		}
+		if s.Op == "remove-member" {
+			s.Op = "remove"
+			var known []string
+			for _, k := range models[s.R].keys {
+				if !strings.HasPrefix(k, "u:") {
+					known = append(known, k)
+				}
+			}
+			if len(known) == 0 {
+				continue
+			}
+			k := known[s.E%len(known)]
+			for j := len(pm.vals) - 1; j >= 0; j-- {
+				if pm.keyOfIndex(j) == k {
+					s.E = j
+					break
+				}
+			}
 		}
 		switch s.Op {
 		case "add", "remove", "has":
@@ -731,6 +784,10 @@ func checkAlgebra(c *facet.Ctx, ac AlgebraCase) (ret error) {
 	if inter > 0 {
 		c.Label("overlap")
 	}
+	if onlyA > 0 && onlyB > 0 {
+		c.Label("neither-contains-the-other")
+	}
+	c.Labelf("classes=%d", len(mUnion(ma, mb).keys))
 	hs := poolHashes(pm)
 	dense := false
 	for i := range hs {
@@ -950,7 +1007,9 @@ func docOrder(ety spec.T, v cty.Value) *facet.Failure {
 		case spec.KString:
 			ok = bytes.Compare([]byte(a.AsString()), []byte(b.AsString())) < 0
 		case spec.KNumber:
-			ok = a.AsBigFloat().Cmp(b.AsBigFloat()) < 0
+			// not strict: two members can be numerically identical without
+			// being equal (one value at two precisions)
+			ok = a.AsBigFloat().Cmp(b.AsBigFloat()) <= 0
 		case spec.KBool:
 			ok = a.False() && b.True()
 		}
@@ -1017,19 +1076,29 @@ func init() {
 	})
 	facet.Register(facet.F[AlgebraCase]{
 		Prop: "C03", Name: "set/algebra",
-		Rule:  "two sets over a pool of 2-8 wholly-known same-typed members dense in equal and colliding values, built three ways (Add, SetVal+AsValueSet, add-all-then-remove); union, intersection, difference and symmetric difference in both operand orders and with a set itself are compared with the mathematical result over reference-equality classes (Length, Values, Has, HasElement on the wrapped result), commutative results must be Equal with equal Hash, operands must stay untouched; non-trivial when the sets overlap, neither contains the other and the pool has equal or colliding members; distinct = hash of the case",
+		Rule:  "two sets over a pool of 3-8 wholly-known same-typed members dense in equal and colliding values, built three ways (Add, SetVal+AsValueSet, add-all-then-remove); union, intersection, difference and symmetric difference in both operand orders and with a set itself are compared with the mathematical result over reference-equality classes (Length, Values, Has, HasElement on the wrapped result), commutative results must be Equal with equal Hash, operands must stay untouched; non-trivial when the sets overlap, neither contains the other and the pool has equal or colliding members; distinct = hash of the case",
 		Quick: 5000, Thorough: 6000,
 		Gen: func(t *rapid.T) AlgebraCase {
-			ety, pool := drawPool(t, 2, 8, false)
+			ety, pool := drawPool(t, 3, 8, false)
 			idx := make([]int, len(pool))
 			for i := range idx {
 				idx[i] = i
 			}
-			sub := func(l string) []int {
-				p := rapid.Permutation(idx).Draw(t, l)
-				return append([]int{}, p[:rapid.IntRange(0, len(p)).Draw(t, l+"n")]...)
+			// every pool member goes to a only, b only, both or neither; the
+			// insertion orders are independent shuffles
+			where := rapid.SliceOfN(rapid.IntRange(0, 3), len(pool), len(pool)).Draw(t, "where")
+			pick := func(l string, in func(w int) bool) []int {
+				out := []int{}
+				for _, i := range rapid.Permutation(idx).Draw(t, l) {
+					if in(where[i]) {
+						out = append(out, i)
+					}
+				}
+				return out
 			}
-			return AlgebraCase{ElemT: ety, Pool: pool, A: sub("a"), B: sub("b"), Via: rapid.IntRange(0, 2).Draw(t, "via")}
+			a := pick("a", func(w int) bool { return w == 0 || w == 2 })
+			b := pick("b", func(w int) bool { return w == 1 || w == 2 })
+			return AlgebraCase{ElemT: ety, Pool: pool, A: a, B: b, Via: rapid.IntRange(0, 2).Draw(t, "via")}
 		},
 		Check: func(c *facet.Ctx, ac AlgebraCase) error { return annotate(checkAlgebra(c, ac), ac.Pool) },
 	})
